@@ -718,3 +718,89 @@ func TestC16CleanupInHook(t *testing.T) {
 		time.Sleep(time.Minute)
 	})
 }
+
+// TestC16Fanout: one graphsync event that concerns several channels at once (a receive error for a
+// peer is reported to every request of that peer) while the handler's reaction to the first
+// notification cleans the other channels up from another goroutine. A channel whose CleanupChannel has
+// RETURNED gets no event any more; one that is still being cleaned up may. Also: a store applied twice
+// to a channel (every restart re-applies transport options) is released when the channel is cleaned up.
+func TestC16Fanout(t *testing.T) {
+	vf.Run(t, "C16Fanout", vf.Opts{Bubble: true, DefaultN: 16}, func(c *vf.Case) {
+		r := c.Rng
+		peers := gen.Peers(r, 2)
+		self, other := peers[0], peers[1]
+		f := newTrFix(c, self)
+		v := gen.SimpleVoucher("VT0", "v")
+		n := 3 + r.Intn(4)
+		var chids []datatransfer.ChannelID
+		for i := 0; i < n; i++ {
+			chid := datatransfer.ChannelID{Initiator: self, Responder: other, ID: datatransfer.TransferID(100 + i)}
+			if i%2 == 0 {
+				// applied before the open and again afterwards, as a restart does
+				f.tr.UseStore(chid, ipld.LinkSystem{})
+			}
+			msg, _ := message.NewRequest(chid.ID, false, true, &v, dummyCid, gen.AllSelector)
+			if err := f.tr.OpenChannel(bg, other, chid, dummyLink, gen.AllSelector, nil, msg); err != nil {
+				panic(err)
+			}
+			if i%2 == 0 {
+				f.tr.UseStore(chid, ipld.LinkSystem{})
+			}
+			chids = append(chids, chid)
+		}
+		settle()
+		var mu sync.Mutex
+		cleanedAt := map[datatransfer.ChannelID]int64{} // stamp at which CleanupChannel returned
+		var once sync.Once
+		f.ev.SetReply(func(h doubles.HCall) (datatransfer.Message, error) {
+			if h.Op == "OnReceiveDataError" {
+				once.Do(func() {
+					for _, ch := range chids {
+						if ch != h.Chid {
+							ch := ch
+							go func() {
+								f.tr.CleanupChannel(ch)
+								mu.Lock()
+								cleanedAt[ch] = doubles.NextSeq()
+								mu.Unlock()
+							}()
+						}
+					}
+					doubles.Yield(400) // the handler takes a moment
+				})
+			}
+			return nil, nil
+		})
+		nev := f.ev.Len()
+		f.gs.ReceiverNetworkErrorListener(other, errors.New("connection reset by peer"))
+		settle()
+		mu.Lock()
+		for _, h := range f.ev.Calls()[nev:] {
+			if at, ok := cleanedAt[h.Chid]; ok && h.Seq > at {
+				c.Violation("C16", "event-after-cleanup "+h.Op, "%s delivered for a channel whose CleanupChannel had already returned (fan-out of one receive error over %d channels)", h.Op, n)
+			}
+			c.Count("fanout_events", 1)
+		}
+		mu.Unlock()
+		for _, ch := range chids {
+			f.tr.CleanupChannel(ch)
+		}
+		settle()
+		if opts := f.gs.RegisteredOptions(); len(opts) > 0 {
+			c.Violation("C16", "store-registered-after-cleanup", "every channel was cleaned up, graphsync still holds the persistence option(s) %v", opts)
+		}
+		for _, gc := range f.gs.Calls() { // graphsync winds the requests up, so that nothing outlives the bubble
+			if gc.Op == "request" {
+				f.gs.Complete(gc.ID, nil)
+			}
+		}
+		settle()
+		c.Mark("n=%d", n)
+		c.NonTrivial()
+		if c.Index < 1 {
+			c.Sample(map[string]any{"engine": "receive-error fan-out with cleanup from the handler; store applied twice", "channels": n})
+		}
+		f.tr.Shutdown(bg)
+		time.Sleep(time.Minute)
+	})
+}
